@@ -1448,6 +1448,8 @@ func ruleCONC5(w *World) []Ob {
 			construct := num.name("per-root call " + calleeString(ci.Common()))
 			if len(wk.Params) > 0 && heldAt(wk.Params[0], in) {
 				l.ok(fid, construct, p.InstrPos(in), "called between Lock and Unlock of the worker's receiver: one root is written as one uninterrupted block", true, "critical")
+			} else if h := ci.Common().StaticCallee(); h != nil && len(wk.Params) > 0 && len(h.Params) > 0 && len(ci.Common().Args) > 0 && sameVar(ci.Common().Args[0], wk.Params[0]) && locksAroundWrites(p, h, writes) {
+				l.ok(fid, construct, p.InstrPos(in), "the helper "+fname(h)+" takes the receiver's lock around everything it writes for the root: one root is written as one uninterrupted block", true, "critical")
 			} else {
 				l.bad(fid, construct, p.InstrPos(in), "a call that writes to the shared writer is made without the spreader's lock held in the worker frame: lines of different roots can interleave", "critical")
 			}
@@ -1567,4 +1569,36 @@ func ruleCONC5(w *World) []Ob {
 		})
 	}
 	return l.list
+}
+
+// locksAroundWrites: h is a method on the same receiver as the worker; every call in h that reaches a write to the
+// shared writer is made while h holds its receiver's lock.
+func locksAroundWrites(p *Prog, h *ssa.Function, writes map[*ssa.Function]bool) bool {
+	if h.Blocks == nil {
+		return false
+	}
+	n, ok := 0, true
+	allInstrs(h, func(in ssa.Instruction) {
+		ci, isCall := in.(ssa.CallInstruction)
+		if !isCall {
+			return
+		}
+		reaches := false
+		for _, g := range p.ModCallees(ci) {
+			if writes[g] {
+				reaches = true
+			}
+		}
+		if f := ci.Common().StaticCallee(); f != nil && !p.InModule(f) && classifyExternal(f) == EffWriteGiven {
+			reaches = true
+		}
+		if !reaches {
+			return
+		}
+		n++
+		if !heldAt(h.Params[0], in) {
+			ok = false
+		}
+	})
+	return ok && n > 0
 }
